@@ -42,7 +42,7 @@ func c12Shape(h *hist.H, i int, us osm.Updates) string {
 	same := 0
 	cnt := map[[2]int64]int{}
 	for _, u := range us {
-		k := [2]int64{int64(u.Index), u.Timestamp.Unix()}
+		k := [2]int64{int64(u.Index), u.Timestamp.UnixNano()}
 		cnt[k]++
 		if cnt[k] > same {
 			same = cnt[k]
@@ -290,7 +290,7 @@ func c12Judge(res *fw.Result, in c12Input, obs []*c12Obs) {
 			}
 			cnt := map[[2]int64]int{}
 			for _, u := range us {
-				kk := [2]int64{int64(u.Index), u.Timestamp.Unix()}
+				kk := [2]int64{int64(u.Index), u.Timestamp.UnixNano()}
 				cnt[kk]++
 				if cnt[kk] > sameSecond {
 					sameSecond = cnt[kk]
